@@ -21,6 +21,10 @@ PINS = {
                   "delivered sh ops ++ drained_frames (final sh ops) = fs /\\ leftover (final sh ops) = []",
     "C14_frames_prefix": "Forall frame_ok fs -> incomplete rest -> fed sh ops = concat fs ++ rest -> "
                          "delivered sh ops ++ drained_frames (final sh ops) = fs /\\ leftover (final sh ops) = rest",
+    "C14_fragmentation_independent": "fed sh1 ops1 = concat fs ++ rest -> fed sh2 ops2 = fed sh1 ops1 -> "
+                                     "delivered sh1 ops1 ++ drained_frames (final sh1 ops1) = "
+                                     "delivered sh2 ops2 ++ drained_frames (final sh2 ops2) /\\ "
+                                     "leftover (final sh1 ops1) = leftover (final sh2 ops2)",
     "C14_only_complete": "fed sh (ops1 ++ ops2) = concat fs ++ rest -> (exists k, delivered sh ops1 = firstn k fs) /\\ "
                          "concat (delivered sh ops1) ++ buf (final sh ops1) = fed sh ops1",
     "C14_spare_nonempty": "forall sh s room, sh <> ShapeOrig -> reachable sh s -> 0 < snd (spare sh room s)",
